@@ -19,6 +19,7 @@ import (
 	"github.com/filecoin-project/go-f3/verifharness/vev"
 	"github.com/filecoin-project/go-f3/verifharness/vgen"
 	"github.com/filecoin-project/go-f3/verifharness/vref"
+	"github.com/ipfs/go-datastore"
 	"github.com/libp2p/go-libp2p/core/host"
 	"github.com/libp2p/go-libp2p/core/network"
 	mocknet "github.com/libp2p/go-libp2p/p2p/net/mock"
@@ -186,7 +187,17 @@ func TestC16Server(t *testing.T) {
 		if !vev.Thorough() && n > 12 && rapid.IntRange(0, 3).Draw(t, "keepbig") > 0 {
 			n = n % 13
 		}
-		s, _, _ := genStore(t, "s", n, 0)
+		s, future, _ := genStore(t, "s", n, 1)
+		orphan := false
+		if len(future) > 0 && rapid.IntRange(0, 2).Draw(t, "orphan") == 0 {
+			// a Put that died after writing the certificate but before advancing the latest pointer
+			// (see C10): the bytes of instance latest+1 are in the datastore, the pointer is not
+			key := datastore.NewKey(fmt.Sprintf("/certstore/certs/%016X", s.next()))
+			if err := s.ds.Put(ctx, key, certBytes(future[0])); err != nil {
+				t.Fatalf("HARNESS: %v", err)
+			}
+			orphan = true
+		}
 		mn, hs := newNet(t, 2)
 		defer mn.Close()
 		srv := &certexchange.Server{NetworkName: nn, Host: hs[0], Store: s.st, RequestTimeout: 30 * time.Second}
@@ -285,7 +296,7 @@ func TestC16Server(t *testing.T) {
 				vev.Fail(t, c16, "C16/client/count", "request %+v: client delivered %d certificates, expected %d", *req, k, len(want))
 			}
 			boundary := uint64(len(want)) == maxN || req.FirstInstance+maxN >= pending || req.Limit == 0
-			vev.Case(c16, vev.Digest("srv", s.first, n, fmt.Sprint(*req)), boundary, "server-request", fmt.Sprintf("served:%d", min(len(want), 3)), fmt.Sprintf("limit-class:%s", limitClass(req.Limit)), fmt.Sprintf("with-table:%v", req.IncludePowerTable))
+			vev.Case(c16, vev.Digest("srv", s.first, n, fmt.Sprint(*req)), boundary, "server-request", fmt.Sprintf("served:%d", min(len(want), 3)), fmt.Sprintf("limit-class:%s", limitClass(req.Limit)), fmt.Sprintf("with-table:%v", req.IncludePowerTable), fmt.Sprintf("orphan-above-pointer:%v", orphan))
 			vev.Sample(c16, func() any {
 				return map[string]any{"kind": "server-request", "store_first": s.first, "stored": n, "request": fmt.Sprintf("%+v", *req), "served": len(got), "advertised_pending": hdr.PendingInstance}
 			})
